@@ -89,5 +89,44 @@ pub proof fn lemma_replay_prefix_ext(c: Coll, a: Seq<Entry>, b: Seq<Entry>, s: u
     if n > 0 { lemma_replay_prefix_ext(c, a, b, s, t, n - 1); assert((a + b)[n - 1] == a[n - 1]); }
 }
 
+
+// ---- T1: the live store equals the replay of the log, for any history of contract-abiding operations
+pub enum Step { Ok(Entry), Failed }          // what one API call did, as its contract states it
+pub open spec fn log_of(h: Seq<Step>, n: int) -> Seq<Entry> decreases n {
+    if n <= 0 { Seq::empty() } else { match h[n - 1] { Step::Ok(e) => log_of(h, n - 1).push(e), Step::Failed => log_of(h, n - 1) } }
+}
+pub open spec fn store_of(h: Seq<Step>, n: int) -> Coll decreases n {
+    if n <= 0 { Map::empty() } else { match h[n - 1] { Step::Ok(e) => apply1(store_of(h, n - 1), e), Step::Failed => store_of(h, n - 1) } }
+}
+pub proof fn lemma_replay_push(c: Coll, es: Seq<Entry>, e: Entry)
+    ensures replay(c, es.push(e), es.len() as int + 1, 0, 0) == apply1(replay(c, es, es.len() as int, 0, 0), e)
+{
+    lemma_replay_prefix_ext(c, es, seq![e], 0, 0, es.len() as int);
+    assert(es.push(e) =~= es + seq![e]);
+    assert(!covered(e, 0, 0));
+}
+pub proof fn lemma_live_is_replay(h: Seq<Step>, n: int)
+    requires 0 <= n <= h.len(),
+    ensures store_of(h, n) == replay(Map::empty(), log_of(h, n), log_of(h, n).len() as int, 0, 0),
+    decreases n
+{
+    if n > 0 {
+        lemma_live_is_replay(h, n - 1);
+        match h[n - 1] { Step::Ok(e) => { lemma_replay_push(Map::empty(), log_of(h, n - 1), e); }, Step::Failed => {} }
+    }
+}
+
+// ---- T4: restarting the counter at 1 + max(seen) never reuses a sequence number
+pub open spec fn max_seq(es: Seq<Entry>, n: int) -> u64 decreases n {
+    if n <= 0 { 0 } else { let m = max_seq(es, n - 1); if es[n - 1].seq_no > m { es[n - 1].seq_no } else { m } }
+}
+pub proof fn lemma_next_seq_fresh(es: Seq<Entry>, n: int, s: u64, i: int)
+    requires 0 <= i < n <= es.len(),
+    ensures es[i].seq_no <= max_seq(es, n), (if s > max_seq(es, n) { s } else { max_seq(es, n) }) + 1 > es[i].seq_no,
+    decreases n
+{
+    if i < n - 1 { lemma_next_seq_fresh(es, n - 1, s, i); }
+}
+
 }
 fn main() {}
